@@ -94,7 +94,7 @@ impl M {
 
 /// Liveness / accounting projection of a link (everything except the
 /// guard-private stall state, the per-link timeout copy and the quality cache).
-fn projection(c: &SrtlaConnection) -> String {
+pub fn projection(c: &SrtlaConnection) -> String {
     let mut log: Vec<(i32, u64)> = c.packet_log.iter().map(|(k, v)| (*k, *v)).collect();
     log.sort_unstable();
     format!(
